@@ -28,10 +28,15 @@ def lastY : α → List (α × α) → α
   | d, [] => d
   | _, q :: rest => lastY q.2 rest
 
+/-- ordinate of the first point (`0` for the empty list) -/
+def firstY : List (α × α) → α
+  | [] => 0
+  | p :: _ => p.2
+
 /-- the same on extended arguments -/
 def interpX (pts : List (α × α)) : X α → X α
   | .nan => .nan
-  | .ninf => match pts with | [] => .fin 0 | p :: _ => .fin p.2
+  | .ninf => .fin (firstY pts)
   | .pinf => .fin (lastY 0 pts)
   | .fin x => .fin (interp pts x)
 
